@@ -11,8 +11,13 @@
    sliced record; the loop ends when the array is full.  Which lines carry a decodable signal is
    image content: `sig` is any set of scan lines.
 
-   All lengths are in rows (units of bytes_per_line).  Valid sampling parameters
-   (_vbi_sampling_par_valid_log): at least one row; interlaced only with count[0] = count[1] > 0.
+   All lengths are in rows (units of bytes_per_line).  The caller may ask for ANY geometry; the
+   decoder is only created for valid sampling parameters (_vbi_sampling_par_valid_log, called by
+   vbi3_raw_decoder_new / _set_sampling_par / vbi_raw_decoder_add_services): at least one row;
+   interlaced only with count[0] = count[1] > 0 (action Admit / Reject).  Rule = "any" is the
+   decoder WITHOUT that admission rule: the loop is the same, RowInside fails (MC_SlicerImage_any
+   must find that) - i.e. the rule is what keeps the row pointer inside the image, and `far`
+   tells for every geometry whether the loop stays inside.
 
    Properties:  RowInside  - the row handed to a slicer lies inside the image
                 OwnRow     - ... and is the storage position of that scan line
@@ -21,19 +26,21 @@
 EXTENDS Naturals, Sequences, FiniteSets, TLC
 
 CONSTANTS MaxCount,    \* rows per field: 0..MaxCount
-          MaxExtra     \* max_lines: 0..rows + MaxExtra
+          MaxExtra,    \* max_lines: 0..rows + MaxExtra
+          Rule         \* "coded": admission as _vbi_sampling_par_valid_log; "any": every geometry with a row
 
 VARIABLES c0, c1,      \* count[0], count[1]
           il,          \* interlaced
           maxl,        \* max_lines
           svc,         \* TRUE: the decoder has services to look for
           sig,         \* scan lines carrying a decodable signal
-          pc,          \* "loop", "done"
+          pc,          \* "new", "rejected", "loop", "done"
           i,           \* scan line
           raw,         \* row the pointer stands on
           at,          \* row handed to the slicers in the last step
-          recs         \* scan lines for which a record was stored, in order
-vars == <<c0, c1, il, maxl, svc, sig, pc, i, raw, at, recs>>
+          recs,        \* scan lines for which a record was stored, in order
+          far          \* ghost: highest row handed to a slicer so far + 1 (0: none yet)
+vars == <<c0, c1, il, maxl, svc, sig, pc, i, raw, at, recs, far>>
 params == <<c0, c1, il, maxl, svc, sig>>
 
 Rows  == c0 + c1
@@ -44,40 +51,57 @@ out   == Len(recs)
 StoragePos(j) == IF j < c0 THEN j * Pitch
                  ELSE IF il = 1 THEN 2 * (j - c0) + 1 ELSE j
 
-Init == /\ c0 \in 0..MaxCount /\ c1 \in 0..MaxCount /\ c0 + c1 > 0
-        /\ il \in {0, 1} /\ (il = 1 => (c0 = c1 /\ c0 > 0))
+\* _vbi_sampling_par_valid_log, geometry part
+Valid == /\ c0 + c1 > 0
+         /\ (il = 1 => (c0 = c1 /\ c0 > 0))
+Admitted == IF Rule = "coded" THEN Valid ELSE c0 + c1 > 0
+
+Init == /\ c0 \in 0..MaxCount /\ c1 \in 0..MaxCount
+        /\ il \in {0, 1}
         /\ maxl \in 0..(c0 + c1 + MaxExtra)
         /\ svc \in BOOLEAN
         /\ sig \in SUBSET (0..(c0 + c1 - 1))
-        /\ pc = "loop" /\ i = 0 /\ raw = 0 /\ at = 0 /\ recs = <<>>
+        /\ pc = "new" /\ i = 0 /\ raw = 0 /\ at = 0 /\ recs = <<>> /\ far = 0
+
+Admit ==               \* the decoder accepts the sampling parameters
+  /\ pc = "new" /\ Admitted
+  /\ pc' = "loop" /\ UNCHANGED <<params, i, raw, at, recs, far>>
+
+Reject ==              \* vbi3_raw_decoder_new returns NULL / add_services admits no service: nothing is ever decoded
+  /\ pc = "new" /\ ~Admitted
+  /\ pc' = "rejected" /\ UNCHANGED <<params, i, raw, at, recs, far>>
 
 NoServices ==          \* nothing to look for: returns 0 at once
   /\ pc = "loop" /\ i = 0 /\ ~svc
-  /\ pc' = "done" /\ UNCHANGED <<params, i, raw, at, recs>>
+  /\ pc' = "done" /\ UNCHANGED <<params, i, raw, at, recs, far>>
 
 Full ==                \* sliced >= sliced_end
   /\ pc = "loop" /\ svc /\ i < Rows /\ out >= maxl
-  /\ pc' = "done" /\ UNCHANGED <<params, i, raw, at, recs>>
+  /\ pc' = "done" /\ UNCHANGED <<params, i, raw, at, recs, far>>
 
 Line ==                \* one scan line through the slicers of its pattern
   /\ pc = "loop" /\ svc /\ i < Rows /\ out < maxl
   /\ LET r == IF il = 1 /\ i = c0 THEN 1 ELSE raw IN
        /\ at' = r /\ raw' = r + Pitch
+       /\ far' = IF r + 1 > far THEN r + 1 ELSE far
   /\ recs' = IF i \in sig THEN Append(recs, i) ELSE recs
   /\ i' = i + 1
   /\ UNCHANGED <<params, pc>>
 
 End ==
   /\ pc = "loop" /\ svc /\ i = Rows
-  /\ pc' = "done" /\ UNCHANGED <<params, i, raw, at, recs>>
+  /\ pc' = "done" /\ UNCHANGED <<params, i, raw, at, recs, far>>
 
-Next == NoServices \/ Full \/ Line \/ End
+Next == Admit \/ Reject \/ NoServices \/ Full \/ Line \/ End
 Spec == Init /\ [][Next]_vars
 
 TypeOK == /\ c0 \in 0..MaxCount /\ c1 \in 0..MaxCount /\ il \in {0, 1} /\ maxl \in Nat /\ svc \in BOOLEAN
-          /\ sig \subseteq 0..(Rows - 1) /\ pc \in {"loop", "done"} /\ i \in 0..Rows /\ raw \in Nat /\ at \in Nat
-          /\ recs \in Seq(0..(Rows - 1))
+          /\ sig \subseteq 0..(Rows - 1) /\ pc \in {"new", "rejected", "loop", "done"} /\ i \in 0..Rows /\ raw \in Nat /\ at \in Nat
+          /\ recs \in Seq(0..(Rows - 1)) /\ far \in Nat
 RowInside == i > 0 => at < Rows
+FarInside == far <= Rows                      \* the same over the whole call
+OnlyValidDecoded == pc \in {"loop", "done"} => Admitted
+RejectedIdle == pc = "rejected" => i = 0 /\ recs = <<>> /\ far = 0
 OwnRow    == i > 0 => at = StoragePos(i - 1)
 OutBound  == out <= maxl /\ out <= Rows
 OneEach   == \A a, b \in 1..out : a < b => recs[a] < recs[b]
